@@ -159,11 +159,24 @@ def rand_tables(spec):
             cuts = sorted(r.sample(range(1, 8), len(succ) - 1))
             parts = [b - a for a, b in zip([0] + cuts, cuts + [8])]
             probs = [p / 8 for p in parts]
+            if spec.get("probs") == "nondyadic":
+                # thirds, tenths, sevenths: float rows that are not dyadic and need not sum to exactly 1.0
+                table = {1: [[1.0]], 2: [[1 / 3, 2 / 3], [0.1, 0.9], [0.7, 0.3]],
+                         3: [[0.7, 0.2, 0.1], [1 / 3, 1 / 3, 1 / 3], [1 / 7, 2 / 7, 4 / 7], [0.1, 0.3, 0.6]]}[len(succ)]
+                probs = table[(3 * i + j) % len(table)]
             if spec.get("tiny") and len(succ) >= 2:
-                # probabilities next to the boundaries: 2^-30 and 1-2^-20 (remaining mass on the last successor)
-                probs = [2.0 ** -30] + [0.0] * (len(succ) - 2) + [1.0 - 2.0 ** -30] if i % 2 else \
+                # tiny probabilities that matter (below isclose's atol): 2^-30 / 2^-45 / 2^-58; the chain successor of
+                # action 0 keeps only that tiny mass on odd rows, so it is the only planned route forward there
+                tp = [2.0 ** -30, 2.0 ** -45, 2.0 ** -58][(i + j) % 3]
+                probs = [tp] + [0.0] * (len(succ) - 2) + [1.0 - tp] if i % 2 else \
                         [1.0 - 2.0 ** -20] + [0.0] * (len(succ) - 2) + [2.0 ** -20]
                 succ, probs = zip(*[(t, p) for t, p in zip(succ, probs) if p > 0])
+            if spec.get("no_goal"):
+                succ = [0 if t == n - 1 else t for t in succ]        # the absorbing state is never entered: episodes run to the cap
+                merged = {}
+                for t, p in zip(succ, probs):
+                    merged[t] = merged.get(t, 0.0) + p
+                succ, probs = list(merged), list(merged.values())
             trans[(i, j)] = list(zip(succ, probs))
     return trans
 
@@ -180,11 +193,19 @@ def rand_mdp(spec):
     style = spec.get("reward", "cost")
     scale = fl(spec.get("reward_scale", "1"))
 
+    import numpy as np
+    f32 = bool(spec.get("float32"))
+
     def reward(s, a, ns):
         i, j, t = idx[s], aidx[a], idx[ns]
         if style == "goal":
             return 1.0 if t == goal else -0.04
-        return -float(1 + (7 * i + 3 * j + t) % 4) * scale
+        if style == "neartie":                                   # ~1e6 with relative gaps of 1e-6 between alternatives
+            return -(1.0e6 + (7 * i + 3 * j + t) % 4)
+        if style == "int":
+            return -(1 + (7 * i + 3 * j + t) % 4)                # Python ints where floats are usual
+        r = -float(1 + (7 * i + 3 * j + t) % 4) * scale
+        return np.float32(r) if f32 else r
 
     actions = tuple(al(j) for j in range(k))
     if spec.get("actions_as") == "list":
@@ -200,6 +221,10 @@ def rand_mdp(spec):
         init = UniformDistribution([sl(i) for i in range(ninit)])
     elif form == "det":
         init = DeterministicDistribution(sl(0))
+    elif form == "tiny":
+        init = DictDistribution({sl(0): 1.0 - 2.0 ** -33, sl(min(1, n - 1)): 2.0 ** -33} if n > 1 else {sl(0): 1.0})
+    elif form == "int":
+        init = DictDistribution({sl(0): 1})                      # integer probability
     else:
         init = DictDistribution({sl(i): 1 / ninit for i in range(ninit)})
 
@@ -211,7 +236,7 @@ def rand_mdp(spec):
         if idx[s] == goal:
             d = DictDistribution({s: 1.0})
         else:
-            d = DictDistribution({sl(t): p for t, p in trans[(idx[s], aidx[a])]})
+            d = DictDistribution({sl(t): (np.float32(p) if f32 else p) for t, p in trans[(idx[s], aidx[a])]})
         cache[(s, a)] = d
         return d
     return QuickTabularMDP(next_state_dist=nsd, initial_state_dist=init, **common)
@@ -334,7 +359,10 @@ def second_problem(spec, par):
     """same labels, different numbers (None when the kind has no such sibling)"""
     kind = spec["kind"]
     if kind == "rand":
-        return dict(spec, pseed=spec["pseed"] + 1000, n=spec["n"] + int(par.get("second_problem_n_delta", 0)))
+        s2 = dict(spec, pseed=spec["pseed"] + 1000, n=spec["n"] + int(par.get("second_problem_n_delta", 0)))
+        if par.get("second_problem_labels"):
+            s2["labels"] = par["second_problem_labels"]           # other labels / other label order
+        return s2
     if kind == "gridworld":
         return dict(spec, success_prob="3/5" if spec.get("success_prob", "1") != "3/5" else "4/5") if spec.get("success_prob", "1") != "1" else None
     if kind == "rngrid":
@@ -383,14 +411,23 @@ def c_laostar(spec, seed, par):
                       randomize_nextstate_order=par.get("randomize_nextstate_order", True),
                       max_lao_star_iterations=par.get("max_iterations", 2000), **kw)
 
+    keep = []
+
+    def late():
+        res, m = keep[0]
+        return {"policy_all_states": policy_table(res.policy, list(m.state_list)), "state_value_map": res.state_value_map,
+                "initial_value": res.initial_value}
+
     def call(other=None):
         res = planner.plan_on(mdp if other is None else other)
+        keep.append((res, mdp if other is None else other))
         svm = res.state_value_map
         return {"initial_value": res.initial_value, "state_value_map": svm, "iterations": res.iterations,
                 "converged": res.converged, "policy": policy_table(res.policy, list(svm.keys())),
                 "visit_order": res.explicit_graph.states_by_visitorder(),
                 "expanded_order": res.explicit_graph.states_by_expandedorder(),
                 "listener_calls": res.event_listener.n if res.event_listener is not None else None}
+    call.late = late
     return call
 
 
@@ -405,13 +442,22 @@ def c_lrtdp(spec, seed, par):
                     max_trial_length=par.get("max_trial_length"),
                     bellman_error_margin=1e-2, **kw)
 
+    keep = []
+
+    def late():
+        res, m = keep[0]
+        return {"policy_all_states": policy_table(res.policy, list(m.state_list)), "V": dict(res.V),
+                "Q": {s: dict(q) for s, q in res.Q.items()}, "initial_value": res.initial_value}
+
     def call(other=None):
         res = planner.plan_on(mdp if other is None else other)
+        keep.append((res, mdp if other is None else other))
         V = dict(res.V)
         return {"V": V, "initial_value": res.initial_value, "Q": {s: dict(q) for s, q in res.Q.items()},
                 "policy": policy_table(res.policy, list(V.keys())), "action_orders": {s: list(o) for s, o in res.action_orders.items()},
                 "solved": dict(res.solved), "seed": res.seed, "converged": getattr(res, "converged", None),
                 "listener_calls": res.event_listener.n if res.event_listener is not None else None}
+    call.late = late
     return call
 
 
@@ -422,10 +468,18 @@ def c_astar(spec, seed, par):
                           randomize_action_order=par.get("randomize_action_order", True),
                           tie_breaking_strategy=par.get("tie_breaking_strategy", "random"))
 
+    keep = []
+
+    def late():
+        res = keep[0]
+        return {"path": res.path, "visited": res.visited, "policy": policy_table(res.policy, res.path[:-1])}
+
     def call(other=None):
         res = planner.plan_on(mdp if other is None else other)
+        keep.append(res)
         return {"path": res.path, "path_value": res.path_value, "visited": res.visited,
                 "policy": policy_table(res.policy, res.path[:-1]), "non_monotonic": res.non_monotonic_counter}
+    call.late = late
     return call
 
 
@@ -434,9 +488,17 @@ def c_bfs(spec, seed, par):
     mdp = build_problem(spec)
     planner = BreadthFirstSearch(seed=seed, randomize_action_order=par.get("randomize_action_order", True))
 
+    keep = []
+
+    def late():
+        res = keep[0]
+        return {"path": res.path, "visited": res.visited, "policy": policy_table(res.policy, res.path[:-1])}
+
     def call(other=None):
         res = planner.plan_on(mdp if other is None else other)
+        keep.append(res)
         return {"path": res.path, "visited": res.visited, "policy": policy_table(res.policy, res.path[:-1])}
+    call.late = late
     return call
 
 
@@ -452,14 +514,22 @@ def c_td(spec, seed, par):
                                                softmax_temp=fl(par.get("softmax_temp", "0")),
                                                initial_q=initial_q, seed=seed)))
 
+    keep = []
+
+    def late():
+        return {name: {"policy_all_states": policy_table(res.policy, list(m.state_list)),
+                       "q": {s: dict(av) for s, av in res.q_values.items()}} for name, res, m in keep[:len(objs)]}
+
     def call(other=None):
         out = {}
         for name, mdp, learner in objs:
             res = learner.train_on(mdp if other is None else other)
+            keep.append((name, res, mdp if other is None else other))
             q = {s: dict(av) for s, av in res.q_values.items()}
             out[name] = {"q": q, "episode_rewards": res.event_listener_results.episode_rewards,
                          "policy": policy_table(res.policy, list(q.keys()))}
         return out
+    call.late = late
     return call
 
 
@@ -468,11 +538,20 @@ def c_rmax(spec, seed, par):
     mdp = build_problem(spec)
     learner = RMAX(episodes=par.get("episodes", 8), rmax=1.0, num_transition_samples=par.get("m", 2), seed=seed)
 
+    keep = []
+
+    def late():
+        res, m = keep[0]
+        return {"policy_all_states": policy_table(res.policy, list(m.state_list)),
+                "q": {s: dict(av) for s, av in res.q_values.items()}}
+
     def call(other=None):
         res = learner.train_on(mdp if other is None else other)
+        keep.append((res, mdp if other is None else other))
         q = {s: dict(av) for s, av in res.q_values.items()}
         return {"q": q, "episode_rewards": res.event_listener_results.episode_rewards,
                 "policy": policy_table(res.policy, list(q.keys()))}
+    call.late = late
     return call
 
 
@@ -538,6 +617,8 @@ def c_semimdp(spec, seed, par):
                         smdp.expected_cumulative_reward(sl[0], options[-1])])
         return out
     call.rebindable = False
+    call.inputs = [options, [list(o.initial_states) for o in options], [o.initial_states for o in options],
+                   [o.subgoals for o in options], sl]
     return call
 
 
@@ -560,7 +641,10 @@ def c_implicit(spec, seed, par):
                "expectation": d.expectation(lambda e: e[1] * 0.3 + len(str(e[0])))}
         d2 = ImplicitDistribution(func, n_samples=n, _seed=seed)
         out["marginal"] = dict(d2.marginalize(lambda e: e[0]).items())
-        out["conditioned"] = dict(d2.condition(lambda e: e[1] != 1).items())
+        try:
+            out["conditioned"] = dict(d2.condition(lambda e: e[1] != 1).items())
+        except ValueError:                                    # rejection sampling ran out of its n_samples tries
+            out["conditioned"] = "ValueError"
         try:                                                  # error path: no sample satisfies the predicate
             out["impossible"] = dict(ImplicitDistribution(func, n_samples=n, _seed=seed).condition(lambda e: False).items())
         except ValueError as e:
@@ -600,6 +684,9 @@ def c_mdp_rollout(spec, seed, par):
         if par.get("initial_state"):
             kw["initial_state"] = pick_state(m, par["initial_state"])
         run = policy.run_on(m, max_steps=ms, rng=_random.Random(seed), **kw)
+        if par.get("policy") == "tabular":                      # TabularPolicy.evaluate_on is the exact evaluation: roll-outs only
+            runs = [policy.run_on(m, max_steps=ms, rng=_random.Random(seed + j), **kw) for j in range(3)]
+            return {"run": run, "len": len(run), "more_runs": runs}
         ev = policy.evaluate_on(m, n_simulations=par.get("nsim", 8), max_steps=max(ms, 1), rng=_random.Random(seed))
         return {"run": run, "len": len(run), "state_value": dict(ev.state_value.items()), "initial_value": ev.initial_value,
                 "action_value": {s: dict(av.items()) for s, av in ev.action_value.items()},
@@ -635,6 +722,8 @@ def c_pomdp_rollout(spec, seed, par):
             kw["initial_agentstate"] = par["initial_agentstate"]           # 0: a falsy node, passed explicitly
         traj = policy.run_on(p, max_steps=par.get("max_steps", 12), rng=_random.Random(seed), **kw)
         return {"traj": traj, "len": len(traj)}
+    if par.get("controller") != "valuebased":
+        call.inputs = [policy.action_strategy, policy.observation_strategy, policy.initial_state_dist]
     if par.get("controller") == "valuebased":
         call.rebindable = False      # the belief policy carries the pomdp it was built with
     return call
@@ -681,7 +770,11 @@ def one(case, pl):
     def fresh(spec=None):
         call = fn(spec or case["problem"], case["seed"], par)     # construction is part of the run
         holder["call"] = call
-        return call(), call
+        before = digest(canon(call.inputs, ordered=True)) if hasattr(call, "inputs") else None
+        val = call()
+        if before is not None and digest(canon(call.inputs, ordered=True)) != before:
+            holder["inputs_mutated"] = True                       # lists / arrays the caller handed to a constructor were edited
+        return val, call
 
     out = {"hashseed": os.environ.get("PYTHONHASHSEED"), "str_hash_probe": hash("msdm-c13-probe") & 0xffff}
     set_globals(1)
@@ -697,9 +790,16 @@ def one(case, pl):
     spec2 = second_problem(case["problem"], par)
     if call is not None and spec2 is not None and getattr(call, "rebindable", True) and case.get("x", True):
         out["XR"], _ = bracket(lambda: (call(build_problem(spec2)), None))
+        if hasattr(call, "late"):
+            # results of the FIRST call (policy on ALL states incl. never queried ones, tables) re-queried AFTER the object
+            # was used on the second problem; reference: the same late query on a fresh object that made one call only
+            out["XQ"], _ = bracket(lambda: (call.late(), None))
         out["XA"], _ = bracket(lambda: (call(), None))
         out["XF"], _ = bracket(lambda: fresh(spec2))
     out["B"], _ = bracket(fresh)
+    if "XQ" in out and holder.get("call") is not None and hasattr(holder["call"], "late"):
+        cb = holder["call"]
+        out["BQ"], _ = bracket(lambda: (cb.late(), None))
     # run H: the same construction after a VARYING number of unrelated objects of the same classes were created in this
     # process (problem + component built on the sibling problem, never called): class-level / module-level state such as
     # instance counters, registries or caches must not reach the result
@@ -743,6 +843,7 @@ def one(case, pl):
         out["C"].append(bracket(fresh)[0])
     set_globals(1)
     out["D"], _ = bracket(fresh)
+    out["inputs_mutated"] = bool(holder.get("inputs_mutated"))
     return out
 
 
